@@ -120,7 +120,7 @@ const UNARY: &[(&str, &[&str])] = &[
     ("compat", &[""]),
 ];
 const BINARY: &[&str] = &["chain", "zip", "zip_longest", "cross_singleton"];
-const FUTURES: &[&str] = &["collect", "for_each", "send_push", "send_sink", "next"];
+const FUTURES: &[&str] = &["collect", "for_each", "send_push", "send_sink", "next", "fold", "fold_from", "reduce"];
 
 struct Gen {
     rng: Rng,
@@ -154,13 +154,20 @@ impl Gen {
     fn tree(&mut self, depth: u32, need_fused: bool) -> Node {
         let r = self.rng.below(10);
         let nd = if depth == 0 || r < 2 {
-            let fl = match self.rng.below(8) {
+            let fl = match self.rng.below(12) {
                 0 => "stream",
                 1 => "poll_fn",
                 2 => "iter",
+                3 => "from_fn",
+                4 => "once",
+                5 => "empty",
                 _ => "src",
             };
-            let sc = self.script(fl != "iter", fl == "src" && !need_fused);
+            let sc = match fl {
+                "once" => vec![vec![self.rng.below(6) as i64]],
+                "empty" => vec![],
+                _ => self.script(fl != "iter" && fl != "from_fn", fl == "src" && !need_fused),
+            };
             self.nsrc += 1;
             self.scripts.push(sc);
             leaf(self.nsrc, fl)
